@@ -55,7 +55,9 @@ class SpecMixin:
                 if k.startswith('_q_') or k in self.quant_vars:
                     fr.locals[k] = v
             try:
-                return self.eval(e.args[0])
+                v = self.eval(e.args[0])
+                v = self.detach(v, self.old_heap, cur_heap)
+                return v
             finally:
                 self.heap, self.ghost = cur_heap, cur_ghost
                 fr.locals = cur_locals
@@ -81,6 +83,52 @@ class SpecMixin:
         raise Unsupported('spec form ' + name)
 
     quant_vars = set()
+
+    def spec_quantifier(self, kind, gen):
+        """all(P(k) for k in <symbolic map>)  ->  ForAll k. k in dom => P(k)
+        (dual-use: the same text evaluates natively on a real dict)."""
+        if len(gen.generators) != 1 or gen.generators[0].ifs or not isinstance(gen.generators[0].target, ast.Name):
+            return NotImplemented
+        it = self.eval(gen.generators[0].iter)
+        if not (isinstance(it, Ref) and isinstance(self.heap.get(it), MapObj)):
+            return NotImplemented
+        m = self.heap.get(it)
+        var = gen.generators[0].target.id
+        self.counter += 1
+        k = z3.Int('%s!q%d' % (var, self.counter))
+        fr = self.frames[-1]
+        had, prev = var in fr.locals, fr.locals.get(var)
+        fr.locals[var] = k
+        self.quant_vars.add(var)
+        try:
+            body = zbool(self.truth(self.eval(gen.elt)))
+        finally:
+            self.quant_vars.discard(var)
+            if had:
+                fr.locals[var] = prev
+            else:
+                del fr.locals[var]
+        dom = z3.Select(m.dom, k)
+        if kind == 'all':
+            return z3.ForAll([k], z3.Implies(dom, body))
+        return z3.Exists([k], z3.And(dom, body))
+
+    def detach(self, v, src, dst):
+        """Copy a mutable builtin container read in the old heap into the
+        current heap, so that `x == old(x)` compares contents, not identity."""
+        if isinstance(v, Ref):
+            o = src.objs.get(v.oid)
+            if isinstance(o, ListObj):
+                return dst.alloc(ListObj([self.detach(x, src, dst) for x in o.items], o.tail))
+            if isinstance(o, Obj) and o.cls == 'builtins.bytearray':
+                return dst.alloc(Obj('builtins.bytearray', dict(o.fields)))
+            if isinstance(o, Obj) and o.cls == 'hyperframe.flags.Flags':
+                return dst.alloc(Obj(o.cls, dict(o.fields)))
+            if isinstance(o, DictObj):
+                return dst.alloc(DictObj({k: self.detach(x, src, dst) for k, x in o.items.items()}))
+        if isinstance(v, tuple):
+            return tuple(self.detach(x, src, dst) for x in v)
+        return v
 
     # ------------------------------------------------------------------
     # symbolic values from sort descriptors
@@ -113,14 +161,44 @@ class SpecMixin:
             return ref
         if desc == 'none':
             return None
+        if desc == 'opaque':
+            return Opaque(name)
+        if desc == 'list':
+            return self.heap.alloc(ListObj([]))
+        if desc == 'bytearray':
+            return self.heap.alloc(Obj('builtins.bytearray', {'data': SymStr('bytes', self.fresh(name, 'str'))}))
+        if desc == 'closedstreams':
+            ci = self.class_named('h2.utilities.SizeLimitDict')
+            m = self.new_sym_map(name, None, scalar_desc='optenum:StreamClosedBy')
+            mo = self.heap.get(m)
+            mo.size = self.fresh(name + '.size', 'int')
+            self.assume(mo.size >= 0)
+            lim = self.fresh(name + '.limit', 'int')
+            self.assume(lim >= 0)
+            return self.heap.alloc(Obj(ci, {'_size_limit': lim, '_od': m}))
+        if desc == 'dispatch':
+            return None      # filled by the contract's setup (needs `self`)
         if desc.startswith('const:'):
             return eval(desc[6:], {})
+        if desc.startswith('frame:'):
+            from .deps_model import sym_frame
+            return sym_frame(self, desc, name)
         b = self.sym_builders.get(desc.split(':')[0])
         if b is not None:
             return b(self, desc, name)
         raise Unsupported('sort descriptor %s' % desc)
 
     sym_builders = {}
+
+    def post_build(self, cls, ref, name):
+        """Class-specific completion of a symbolic object."""
+        qn = cls.qualname if isinstance(cls, extract.ClassInfo) else cls
+        o = self.heap.get(ref)
+        if qn == 'h2.connection.H2Connection':
+            streams = self.heap.get(o.fields['streams'])
+            streams.shared['config'] = o.fields['config']
+            for st in (o.fields['local_settings'], o.fields['remote_settings']):
+                pass
 
     def sym_obj(self, cls, name):
         fields = {}
@@ -129,6 +207,7 @@ class SpecMixin:
             if d == 'shared':
                 continue
             fields[f] = self.sym_value(d, '%s.%s' % (name, f))
+        self.post_build(cls, ref, name)
         return ref
 
     # ------------------------------------------------------------------
